@@ -442,7 +442,14 @@ func (i *Interp) visitInstr(fr *frame, instr ssa.Instruction) continuation {
 		fr.runDefers()
 
 	case *ssa.Panic:
-		panic(targetPanic{fr.get(instr.X)})
+		pv := fr.get(instr.X)
+		if f, ok := pv.(iface); ok && f.t == nil {
+			// Go >= 1.21: panic(nil) raises *runtime.PanicNilError
+			cell := new(value)
+			*cell = zero(i.namedType("runtime", "PanicNilError"))
+			pv = iface{t: types.NewPointer(i.namedType("runtime", "PanicNilError")), v: cell}
+		}
+		panic(targetPanic{pv})
 
 	case *ssa.Send:
 		i.unsupported("channel send")
